@@ -47,6 +47,8 @@ FAMILIES = {
         "figures": ("ParamsFig", "FigMoves", 3, "NoTr", "PageAndFigure", "First1", ["SkipFigure", "BuildOther"]),
         "extreme": ("ParamsExtreme", "MixMovesQ", 3, "BothTr", "PageOnly", "First1", ["GONewV", "BuildOther"]),
         "overprint": ("ParamsOver", "OverMoves", 3, "BothTr", "PageOnly", "First1", []),
+        "nested":  ("ParamsNest", "NestMoves", 5, "BothTr", "PageOnly", "FirstNest", []),
+        "degenerate": ("ParamsDegen", "DegenMoves", 3, "BothTr", "PageOnly", "FirstDegen", []),
     },
     "thorough": {
         "lines":   ("ParamsLineQ", "LineMovesQ", 3, "BothTr", "PageOnly", "First1", []),
@@ -62,6 +64,8 @@ FAMILIES = {
         "figures": ("ParamsFig", "FigMoves", 4, "NoTr", "PageAndFigure", "First1", []),
         "extreme": ("ParamsExtreme", "MixMovesT", 3, "BothTr", "PageOnly", "First1", []),
         "overprint": ("ParamsOver", "OverMoves", 4, "BothTr", "PageOnly", "First1", []),
+        "nested":  ("ParamsNestT", "NestMovesT", 5, "BothTr", "PageOnly", "FirstNest", []),
+        "degenerate": ("ParamsDegen", "DegenMoves", 4, "BothTr", "PageOnly", "FirstDegen", []),
     },
 }
 SIM = {"quick": (400, 9), "thorough": (6000, 9)}     # -simulate: behaviours, glyphs
